@@ -515,3 +515,81 @@ Lemma lens_ir_sum k f z r2 : lens_quad k f * r2 + ir_quad k z * r2 = (lens_quad 
 Proof. ring. Qed.
 Lemma lens_ir_cancel k f r2 : f <> 0 -> lens_quad k f * r2 + ir_quad k f * r2 = 0.
 Proof. intros Hf. unfold lens_quad, ir_quad. field. exact Hf. Qed.
+
+(* ------------------------------------------------------------------ band limit *)
+Lemma bl_root_pos z L : 1 <= sqrt ((2 * z / L) ^ 2 + 1).
+Proof. rewrite <- sqrt_1 at 1. apply sqrt_le_1_alt. assert (0 <= (2 * z / L) ^ 2) by nra. lra. Qed.
+Lemma bl_limit_pos lam z L : 0 < lam -> 0 < bl_limit lam z L <= 1 / lam.
+Proof.
+  intros Hl. unfold bl_limit. pose proof (bl_root_pos z L) as Hr. set (s := sqrt ((2 * z / L) ^ 2 + 1)) in *.
+  assert (Hi : 0 < / lam) by (apply Rinv_0_lt_compat; exact Hl).
+  assert (Hs : 0 < / s <= 1).
+  { split; [apply Rinv_0_lt_compat; lra|]. rewrite <- Rinv_1. apply Rinv_le_contravar; lra. }
+  unfold Rdiv. rewrite !Rmult_1_l. split; nra.
+Qed.
+Lemma bl_limit_even lam z L : bl_limit lam (- z) L = bl_limit lam z L.
+Proof. unfold bl_limit. f_equal. f_equal. f_equal. f_equal. unfold Rdiv. ring. Qed.
+(* the cut-off is where the sampling theorem stops holding for the transfer function on a window of extent L *)
+Lemma bl_limit_sampling lam z L f : 0 < lam -> 0 < L -> 0 <= f -> f < 1 / lam ->
+  (Rabs z * f / sqrt (1 / lam ^ 2 - f ^ 2) <= L / 2 <-> f <= bl_limit lam z L).
+Proof.
+  intros Hl HL Hf0 Hf1.
+  assert (Hil : 0 < 1 / lam) by (apply Rdiv_lt_0_compat; lra).
+  assert (Hd : 0 < 1 / lam ^ 2 - f ^ 2).
+  { replace (1 / lam ^ 2) with ((1 / lam) ^ 2) by (field; lra). nra. }
+  set (d := 1 / lam ^ 2 - f ^ 2) in *.
+  assert (Hs : 0 < sqrt d) by (apply sqrt_lt_R0; exact Hd).
+  assert (Hss : sqrt d * sqrt d = d) by (apply sqrt_sqrt; lra).
+  pose proof (bl_root_pos z L) as Hr.
+  set (A := (2 * z / L) ^ 2 + 1) in *.
+  assert (HA : 1 <= A) by (unfold A; assert (0 <= (2 * z / L) ^ 2) by nra; lra).
+  assert (Hrr : sqrt A * sqrt A = A) by (apply sqrt_sqrt; lra).
+  assert (Hb : bl_limit lam z L = 1 / (sqrt A * lam)) by (unfold bl_limit; fold A; field; split; lra).
+  assert (Hbp : 0 < sqrt A * lam) by nra.
+  assert (Ez : Rabs z * Rabs z = z * z) by (unfold Rabs; destruct (Rcase_abs z); ring).
+  pose proof (Rabs_pos z) as Hz0.
+  (* both statements are equivalent to f^2 A lam^2 <= 1 *)
+  assert (K : f ^ 2 * (A * lam ^ 2) <= 1 <-> 4 * (z * z) * f ^ 2 <= L ^ 2 * d).
+  { unfold A, d. replace (f ^ 2 * (((2 * z / L) ^ 2 + 1) * lam ^ 2) <= 1) with (f ^ 2 * (((2 * z / L) ^ 2 + 1) * lam ^ 2) <= 1) by reflexivity.
+    assert (E1 : f ^ 2 * (((2 * z / L) ^ 2 + 1) * lam ^ 2) - 1 = (lam ^ 2 / L ^ 2) * (4 * (z * z) * f ^ 2 - L ^ 2 * (1 / lam ^ 2 - f ^ 2))) by (field; split; lra).
+    assert (Hc : 0 < lam ^ 2 / L ^ 2) by (apply Rdiv_lt_0_compat; nra).
+    split; intros H; nra. }
+  split; intros H.
+  - rewrite Hb. apply Rmult_le_reg_r with (sqrt A * lam); [exact Hbp|].
+    replace (1 / (sqrt A * lam) * (sqrt A * lam)) with 1 by (field; split; lra).
+    assert (H2 : Rabs z * f <= L / 2 * sqrt d).
+    { apply Rmult_le_reg_r with (/ sqrt d); [apply Rinv_0_lt_compat; exact Hs|].
+      replace (L / 2 * sqrt d * / sqrt d) with (L / 2) by (field; lra). exact H. }
+    assert (H3 : 4 * (z * z) * f ^ 2 <= L ^ 2 * d).
+    { rewrite <- Ez. assert (0 <= Rabs z * f) by nra. assert (0 <= L / 2 * sqrt d) by nra.
+      assert (Hsq : (Rabs z * f) * (Rabs z * f) <= (L / 2 * sqrt d) * (L / 2 * sqrt d)) by (apply Rmult_le_compat; assumption).
+      replace ((L / 2 * sqrt d) * (L / 2 * sqrt d)) with (L ^ 2 / 4 * (sqrt d * sqrt d)) in Hsq by field. rewrite Hss in Hsq. nra. }
+    apply K in H3.
+    assert (H4 : (f * (sqrt A * lam)) * (f * (sqrt A * lam)) <= 1 * 1).
+    { replace ((f * (sqrt A * lam)) * (f * (sqrt A * lam))) with (f ^ 2 * ((sqrt A * sqrt A) * lam ^ 2)) by ring. rewrite Hrr. lra. }
+    assert (0 <= f * (sqrt A * lam)) by nra. nra.
+  - rewrite Hb in H.
+    assert (H1 : f * (sqrt A * lam) <= 1).
+    { apply Rmult_le_compat_r with (r := sqrt A * lam) in H; [|lra].
+      replace (1 / (sqrt A * lam) * (sqrt A * lam)) with 1 in H by (field; split; lra). exact H. }
+    assert (H2 : f ^ 2 * (A * lam ^ 2) <= 1).
+    { assert (0 <= f * (sqrt A * lam)) by nra.
+      assert (Hsq : (f * (sqrt A * lam)) * (f * (sqrt A * lam)) <= 1 * 1) by (apply Rmult_le_compat; assumption).
+      replace ((f * (sqrt A * lam)) * (f * (sqrt A * lam))) with (f ^ 2 * ((sqrt A * sqrt A) * lam ^ 2)) in Hsq by ring. rewrite Hrr in Hsq. lra. }
+    apply K in H2.
+    apply Rmult_le_reg_r with (sqrt d); [exact Hs|].
+    replace (Rabs z * f / sqrt d * sqrt d) with (Rabs z * f) by (field; lra).
+    assert (Hq : (Rabs z * f) * (Rabs z * f) <= (L / 2 * sqrt d) * (L / 2 * sqrt d)).
+    { replace ((L / 2 * sqrt d) * (L / 2 * sqrt d)) with (L ^ 2 / 4 * (sqrt d * sqrt d)) by field. rewrite Hss.
+      replace ((Rabs z * f) * (Rabs z * f)) with ((Rabs z * Rabs z) * f ^ 2) by ring. rewrite Ez. nra. }
+    assert (0 <= Rabs z * f) by nra. assert (0 <= L / 2 * sqrt d) by nra. nra.
+Qed.
+(* a sample passes the mask iff both of its frequencies are below the cut-off of their own axis *)
+Lemma bl_pass_true lam z Lx Ly fx fy : bl_pass lam z Lx Ly fx fy = true <-> Rabs fx < bl_limit lam z Lx /\ Rabs fy < bl_limit lam z Ly.
+Proof. unfold bl_pass. rewrite Bool.andb_true_iff, !Rltb_true. tauto. Qed.
+(* whatever passes is a propagating wave on each axis *)
+Lemma bl_pass_propagating lam z Lx Ly fx fy : 0 < lam -> bl_pass lam z Lx Ly fx fy = true -> Rabs fx < 1 / lam /\ Rabs fy < 1 / lam.
+Proof.
+  intros Hl H. apply bl_pass_true in H. destruct H as [Hx Hy].
+  pose proof (bl_limit_pos lam z Lx Hl). pose proof (bl_limit_pos lam z Ly Hl). split; lra.
+Qed.
